@@ -308,6 +308,13 @@ def tie(tier, seed, replay):
         if r["impl"] and "snaps" in r["impl"][0]:
             s["impl"] = {k: v[:6] for k, v in g.decode_snapshot(r["case"]["prog"], r["impl"][0]["snaps"][-1]).items()}
         sample.append(s)
+    # the planner model on lattice programs (Plan/PlanLat*.v: c03_planner_*): model plan = dumped plan, hypotheses evaluated in Coq
+    planlat = None
+    if not replay:
+        from .. import plan_lat
+        planlat = plan_lat.run(tier, seed)
+        mism += planlat.pop("mismatches")
+        planlat = {k: v for k, v in planlat.items() if not k.startswith("_")}
     return dict(evaluations=sum(len(r["case"]["inputs"]) for r in ok), distinct_nontrivial=len(distinct),
                 rule="lattice programs (shortest / widest path, reachability sets, constant propagation, random monotone programs over u32-max, Dual<u32>, Option<u32>, bool, (u32,u32), Set<u32>, BoundedSet<2,u32>, ConstPropagation<u32>; arities 1-3; component-wise maxima / lock-step recursion / paths / non-linear merges / random monotone programs over the composite columns Product<[u32;2]>, Product<[u32;3]>, Dual<Product<[u32;2]>>, Option<Product<[u32;2]>>, Product<[Dual<u32>;2]>, Product<(u32,Dual<u32>,u32)>, Product<(u32,Dual<u32>)>, Rc / Box / Reverse<Product<[u32;2]>> with the values of a key arriving in random / rising / falling order) x 3-4 inputs (incl. graphs on which one key is improved up to 12 times over as many iterations, lattice-typed input rows); non-trivial = a lattice relation is dynamic in a looping SCC and the run changes a lattice relation; distinct = distinct (plan summary, input)",
                 samples=sample, distribution=dict(programs=len(ok), shapes=shapes, features=feats, input_styles=styles, recursive_changing_runs=nontriv,
@@ -322,4 +329,4 @@ def tie(tier, seed, replay):
                 assumptions=["lattice laws of the shipped lattice types: property C16", "generated programs are monotone by construction (vocabulary of monotone operations and upward-closed tests)",
                              "inputs hold at most one row per key of a lattice relation", "values stay far inside u32 / i32",
                              "hash-map iteration order: the model uses a fixed (alternating) order; the compared observables are order-independent by the C03 theorems"],
-                extra=dict(vocabulary_rows_checked_coq_vs_python=nvoc, cases_skipped_model_too_slow=nskipped, programs=len(ok), plans_validated=sum(1 for r in ok if r["valid"] is True)))
+                extra=dict(planner_model_on_lattice_programs=planlat, vocabulary_rows_checked_coq_vs_python=nvoc, cases_skipped_model_too_slow=nskipped, programs=len(ok), plans_validated=sum(1 for r in ok if r["valid"] is True)))
